@@ -6,6 +6,7 @@ import RbpfModel.Model.Hex
 import RbpfModel.Model.Insn
 import RbpfModel.Model.Builder
 import RbpfModel.Model.DriveExec
+import RbpfModel.Model.DriveText
 open Rbpf Rbpf.Hex
 
 def insnStr (i : Insn) : String :=
@@ -76,6 +77,10 @@ def handle (toks : List String) : String :=
       | some f => s!"b={bytesHex (Builder.intoBytes k f)} e={bytesHex (Builder.insn k f).toArray}"
       | none => "bad-op"
     | _, _ => "bad-op"
+  | ["asm", t] => Drive.handleAsm t
+  | ["asm", t, _want] => Drive.handleAsm t
+  | ["dis", p] => Drive.handleDis p
+  | ["rt", p] => Drive.handleRt p
   | ["verify", prog] => Drive.handleVerify prog
   | "exec" :: rest => Drive.handleExec rest
   | _ => "bad-op"
